@@ -246,6 +246,42 @@ fn views(_sc: &J) -> J {
 
 pub fn run(kind: &str, sc: &J) -> J {
     match kind {
+        "strftime" => {
+            use liquid_core::model::DateTime;
+            let g = |k: &str| sc.get(k).and_then(|v| v.as_i64()).unwrap_or(0);
+            let fmt = sc.get("fmt").and_then(|v| v.as_str()).unwrap_or("");
+            let month = time::Month::try_from(g("month").clamp(1, 12) as u8).unwrap();
+            let mut day = g("day").clamp(1, 31) as u8;
+            let date = loop {
+                match time::Date::from_calendar_date(g("year") as i32, month, day) { Ok(d) => break d, Err(_) => day -= 1 }
+            };
+            let t = time::Time::from_hms_nano(g("hour").clamp(0, 23) as u8, g("minute").clamp(0, 59) as u8, g("second").clamp(0, 59) as u8, g("nanosecond").clamp(0, 999_999_999) as u32).unwrap();
+            let off = time::UtcOffset::from_hms(g("off_h") as i8, g("off_m") as i8, g("off_s") as i8).unwrap_or(time::UtcOffset::UTC);
+            let odt = time::PrimitiveDateTime::new(date, t).assume_offset(off);
+            let mut dt = DateTime::from_ymd(2020, 1, 1);
+            *dt = odt;
+            let iso = odt.to_iso_week_date();
+            let fields = json!({"year": odt.year(), "month": odt.month() as u8, "day": odt.day(), "hour": odt.hour(), "minute": odt.minute(), "second": odt.second(),
+                "nanosecond": odt.nanosecond(), "weekday": odt.weekday().number_days_from_monday(), "ordinal": odt.ordinal(), "unix_timestamp": odt.unix_timestamp(),
+                "sunday_based_week": odt.sunday_based_week(), "monday_based_week": odt.monday_based_week(), "iso_year": iso.0, "iso_week": iso.1,
+                "off_neg": off.is_negative(), "off_h": off.whole_hours(), "off_m": off.minutes_past_hour(), "off_s": off.seconds_past_minute()});
+            match dt.format(fmt) {
+                Ok(s) => json!({"outcome": "ok", "output": s, "fields": fields}),
+                Err(e) => json!({"outcome": "err", "error": e.to_string(), "fields": fields}),
+            }
+        }
+        "datetime_roundtrip" => {
+            use liquid_core::model::DateTime;
+            let g = |k: &str| sc.get(k).and_then(|v| v.as_i64()).unwrap_or(0);
+            let mut dt = DateTime::from_ymd(2020, 6, 15);
+            *dt = *dt + time::Duration::seconds(g("secs")) + time::Duration::nanoseconds(g("nanosecond"));
+            *dt = dt.to_offset(time::UtcOffset::from_hms(g("off") as i8, 0, 0).unwrap());
+            let printed = dt.to_string();
+            match DateTime::from_str(&printed) {
+                Some(back) => json!({"outcome": "ok", "printed": printed, "same": *back == *dt && back.offset() == dt.offset()}),
+                None => json!({"outcome": "ok", "printed": printed, "same": false}),
+            }
+        }
         "datetime_cmp" => {
             use liquid_core::model::DateTime;
             let g = |k: &str| sc.get(k).and_then(|v| v.as_i64()).unwrap_or(0);
